@@ -7,7 +7,7 @@ regenerated constants `Facts.MaxColumns`, `Facts.MinColumns`, `Facts.TotalRows`;
 `limits_ok` pins the values the arithmetic below relies on, so an edit of the
 constants in templates.go breaks this file.
 -/
-import XlModel.Lemmas.Ref9
+import XlModel.Lemmas.Ref10
 
 namespace XlModel.Props.C20
 open XlModel XlModel.Ref
@@ -738,6 +738,43 @@ theorem render_piece_denotes (c r1 r2 : Nat) (hc : 1 ≤ c ∧ c ≤ Facts.MaxCo
     · rintro ⟨g1, _, g3, g4⟩
       exact Or.inr ⟨c, r1, c, r2, hq, by omega, by omega, by omega, by omega⟩
 
+/-- **`squashSqref` preserves the denotation, string level, whole lists**: for the
+cells of one in-grid column in strictly ascending in-grid rows, the reference strings
+`squashSqref` returns denote — by the strict grammar, i.e. as `flatSqref` would
+enumerate them again — exactly the input cells. -/
+theorem squash_refs_denote (c : Nat) (hc : 1 ≤ c ∧ c ≤ Facts.MaxColumns) (cells : List Cell)
+    (hcol : ∀ x ∈ cells, x.1 = (c : Int))
+    (hrow : ∀ x ∈ cells, 1 ≤ x.2 ∧ x.2 ≤ (Facts.TotalRows : Int))
+    (hasc : List.Pairwise (fun a b : Cell => a.2 < b.2) cells) (p : Cell) :
+    (∃ ref ∈ squashSqref cells, refHas ref p) ↔ p ∈ cells := by
+  rw [← squash_denotes (c : Int) cells hcol hasc p]
+  unfold squashSqref
+  have hwf := squashPieces_wf (c : Int) cells hcol hasc
+  have key : ∀ piece ∈ squashPieces cells, (refHas (renderPiece piece) p ↔ pieceHas piece p) := by
+    intro piece hpc
+    have hw := hwf piece hpc
+    cases piece with
+    | one q =>
+      obtain ⟨hq, hq1⟩ := hw
+      have hr := hrow q hq
+      have e : q = ((c : Int), ((q.2.toNat : Nat) : Int)) := Prod.ext hq1 (by simp only []; omega)
+      rw [e]
+      exact (render_piece_denotes c q.2.toNat q.2.toNat hc (by omega) (by omega) (Nat.le_refl _) p).1
+    | span a b =>
+      obtain ⟨ha, hb, ha1, hb1, hle⟩ := hw
+      have hra := hrow a ha
+      have hrb := hrow b hb
+      have ea : a = ((c : Int), ((a.2.toNat : Nat) : Int)) := Prod.ext ha1 (by simp only []; omega)
+      have eb : b = ((c : Int), ((b.2.toNat : Nat) : Int)) := Prod.ext hb1 (by simp only []; omega)
+      rw [ea, eb]
+      exact (render_piece_denotes c a.2.toNat b.2.toNat hc (by omega) (by omega) (by omega) p).2
+  constructor
+  · rintro ⟨ref, hr, hh⟩
+    obtain ⟨piece, hpc, rfl⟩ := List.mem_map.mp hr
+    exact ⟨piece, hpc, (key piece hpc).mp hh⟩
+  · rintro ⟨piece, hpc, hh⟩
+    exact ⟨renderPiece piece, List.mem_map.mpr ⟨piece, hpc, rfl⟩, (key piece hpc).mpr hh⟩
+
 /-! ## `mergeCellsParser` on a sheet with merged cells -/
 
 /-- **spelling independence of the redirect, full strength**: whatever the merged-cell
@@ -949,5 +986,188 @@ theorem paths_merged_land (ms : List (List Char)) (s : List Char) (ci ri : Int)
     · unfold pathPrepareM; simp only [ha, hcorner]
     · unfold pathGetStringM; simp only [ha, hcorner, hcanon1]
     · unfold pathLinkM; simp only [hq, ha]
+
+/-! ## References inside option structs and the remaining cell/range functions
+
+`XlModel.RefOpts.optAccepts` transcribes what each API does with the reference before
+storing it. -/
+
+/-- **strictness, direct-decode fields**: `Shape.Cell` (AddShape), `SlicerOptions.Cell`
+(AddSlicer), `FormControl.Cell` (AddFormControl) and `InsertPageBreak` accept exactly
+the strict A1 references inside the grid. -/
+theorem opt_direct_accepts_iff_a1 (s : List Char) :
+    (optAccepts .shape s = true ↔ ∃ c r, parseA1 s = some (c, r)) ∧
+    (optAccepts .slicer s = true ↔ ∃ c r, parseA1 s = some (c, r)) ∧
+    (optAccepts .formCtl s = true ↔ ∃ c r, parseA1 s = some (c, r)) ∧
+    (optAccepts .pageBreak s = true ↔ ∃ c r, parseA1 s = some (c, r)) := by
+  refine ⟨?_, ?_, ?_, ?_⟩ <;> (simp only [optAccepts]; exact decode_isOk_iff_a1 s)
+
+/-- `FormControl.CellLink` of a scroll bar / spin button: empty, or a strict A1 reference -/
+theorem opt_formlink_spin_accepts_iff (s : List Char) :
+    optAccepts .formLinkSpin s = true ↔ s = [] ∨ ∃ c r, parseA1 s = some (c, r) := by
+  simp only [optAccepts, Bool.or_eq_true, List.isEmpty_iff]
+  rw [decode_isOk_iff_a1]
+
+/-- `SetSheetRow(sheet, cell, &[v1, v2])`: the start cell is a strict A1 reference and
+the second value still fits into the grid -/
+theorem opt_sheetrow2_accepts_iff (s : List Char) :
+    optAccepts .sheetRow2 s = true ↔ ∃ c r, parseA1 s = some (c, r) ∧ c + 1 ≤ Facts.MaxColumns := by
+  simp only [optAccepts]
+  cases hd : cellNameToCoordinates s with
+  | error e =>
+    simp only [Bool.false_eq_true, false_iff, not_exists, not_and]
+    intro c r hp
+    have := spec_sound s c r hp
+    rw [hd] at this; cases this
+  | ok p =>
+    obtain ⟨ci, ri⟩ := p
+    obtain ⟨c, r, hsh, rfl, rfl⟩ := shape_of_decode hd
+    have hp := parseA1_of_shape hsh
+    obtain ⟨_, _, _, _, _, _, _, _, _, _, _, _, hc1, hc2, _, hr1, hr2⟩ := hsh
+    have hM := limits_ok
+    by_cases hfit : c + 1 ≤ Facts.MaxColumns
+    · have := cell_encode_eq (c + 1) r false (by omega) hfit hr1 hr2
+      have e : ((c : Int) + 1) = ((c + 1 : Nat) : Int) := by omega
+      simp only [e, this, true_iff]
+      exact ⟨c, r, hp, hfit⟩
+    · have hbad : coordinatesToCellName ((c : Int) + 1) (r : Int) false = .error .colNumber := by
+        unfold coordinatesToCellName columnNumberToName
+        have a1 : ¬ ((c : Int) + 1 < 1) := by omega
+        have a2 : ¬ ((r : Int) < 1) := by omega
+        have a3 : ¬ ((r : Int) > (Facts.TotalRows : Int)) := by omega
+        have a4 : ((c : Int) + 1 > (Facts.MaxColumns : Int)) := by omega
+        simp [a1, a2, a3, a4]
+      simp only [hbad, Bool.false_eq_true, false_iff, not_exists, not_and]
+      intro c' r' hp' hfit'
+      rw [hp] at hp'; cases hp'
+      exact hfit hfit'
+
+/-- `Table.Range` (AddTable): exactly the strict `cell:cell` ranges -/
+theorem opt_table_accepts_iff (s : List Char) :
+    optAccepts .table s = true ↔ ∃ q, parseRangeStrict s = some q := by
+  simp only [optAccepts]; exact range_isOk_iff_strict s
+
+/-- **exact acceptance of `adjustRange`** (`PivotTableOptions.DataRange`,
+`PivotTableRange`): `sheet!range` with exactly one `!`, where `range` — after EVERY
+`$` in it has been deleted — is a strict `cell:cell` range that is not a single cell;
+the rectangle returned is the sorted one. -/
+theorem pivot_range_accepts_iff (s sheet : List Char) (rect : Rect) :
+    adjustRange s = .ok (sheet, rect) ↔
+      ∃ rng, ∃ c1 r1 c2 r2 : Nat, splitBang s = [sheet, rng] ∧
+        parseRangeStrict (stripDollar rng) = some (c1, r1, c2, r2) ∧ ¬ (c1 = c2 ∧ r1 = r2) ∧
+        rect = sortCoordinates ((c1 : Int), (r1 : Int), (c2 : Int), (r2 : Int)) := by
+  unfold adjustRange
+  constructor
+  · intro h
+    split at h
+    · cases h
+    · split at h
+      · rename_i sh rng hsp
+        split at h
+        · cases h
+        · rename_i x1 y1 x2 y2 hd
+          obtain ⟨n1, m1, n2, m2, rfl, rfl, rfl, rfl, hq⟩ := range_rejects_non_range _ _ _ _ _ hd
+          split at h
+          · cases h
+          · rename_i hne
+            simp only [Except.ok.injEq, Prod.mk.injEq] at h
+            obtain ⟨rfl, rfl⟩ := h
+            refine ⟨rng, n1, m1, n2, m2, hsp, hq, ?_, rfl⟩
+            intro ⟨e1, e2⟩
+            apply hne
+            simp [e1, e2]
+      · cases h
+  · rintro ⟨rng, c1, r1, c2, r2, hsp, hq, hne, rfl⟩
+    have hnonempty : s.isEmpty = false := by
+      cases s with
+      | nil => simp [splitBang, splitBangAux] at hsp
+      | cons a as => rfl
+    simp only [hnonempty, Bool.false_eq_true, if_false, hsp, range_strict_accepted _ c1 r1 c2 r2 hq]
+    have : ((c1 : Int) == (c2 : Int) && (r1 : Int) == (r2 : Int)) = false := by
+      simp only [Bool.and_eq_false_iff, beq_eq_false_iff_ne, ne_eq]
+      by_cases e : c1 = c2
+      · exact Or.inr (by intro h; exact hne ⟨e, by omega⟩)
+      · exact Or.inl (by intro h; exact e (by omega))
+    simp only [this, Bool.false_eq_true, if_false]
+
+/-- what is true of the pivot ranges (`…_partial`: the missing hypothesis is that the
+range part is itself a strict range): every `sheet!cell:cell` that is not a single
+cell is accepted and decoded to its sorted corners. -/
+theorem pivot_range_strict_partial (sheet rng : List Char) (c1 r1 c2 r2 : Nat)
+    (hbang : splitBang (sheet ++ ['!'] ++ rng) = [sheet, rng])
+    (hq : parseRangeStrict rng = some (c1, r1, c2, r2)) (hne : ¬ (c1 = c2 ∧ r1 = r2)) :
+    adjustRange (sheet ++ ['!'] ++ rng) =
+      .ok (sheet, sortCoordinates ((c1 : Int), (r1 : Int), (c2 : Int), (r2 : Int))) := by
+  rw [pivot_range_accepts_iff]
+  refine ⟨rng, c1, r1, c2, r2, hbang, ?_, hne, rfl⟩
+  exact (parseRangeStrict_iff _ _ _ _ _).mpr
+    (rangeStrict_stripDollar ((parseRangeStrict_iff _ _ _ _ _).mp hq))
+
+/-- **finding (open)**: the pivot table ranges accept a `$` anywhere in the range part
+(`adjustRange` deletes every `$` before decoding — the leniency repaired in
+`rangeRefToCoordinates` lives on here): `AddPivotTable` with `DataRange` or
+`PivotTableRange` `"Sheet1!A$$1:C4"`, `"Sheet1!$$A1:$C4$"` succeeds. Oracle
+signatures `optref:accept-non-ref:pivotdata`, `optref:accept-non-ref:pivotloc`. -/
+theorem finding_pivot_range_stray_dollar :
+    adjustRange ['S', '!', 'A', '$', '$', '1', ':', 'C', '4'] = .ok (['S'], (1, 1, 3, 4)) ∧
+    parseRangeStrict ['A', '$', '$', '1', ':', 'C', '4'] = none ∧
+    adjustRange ['S', '!', '$', '$', 'A', '1', ':', '$', 'C', '4', '$'] = .ok (['S'], (1, 1, 3, 4)) := by
+  refine ⟨by decide +kernel, by decide +kernel, by decide +kernel⟩
+
+/-- **finding (open)**: seven option fields / arguments are stored without any
+validation — every string is accepted: `DataValidation.Sqref` (AddDataValidation),
+`SparklineOptions.Location` and `.Range` (AddSparkline), `Panes.TopLeftCell`,
+`Selection.ActiveCell`, `Selection.SQRef` (SetPanes), `FormControl.CellLink` of a
+check box; `AddIgnoredErrors` rejects only the empty string. Witness `"junk"` (not an
+A1 reference, not a range). Oracle signatures `optref:accept-non-ref:<kind>`. -/
+theorem finding_opt_unvalidated :
+    (∀ s, optAccepts .dvSqref s = true) ∧ (∀ s, optAccepts .sparkLoc s = true) ∧
+    (∀ s, optAccepts .sparkRng s = true) ∧ (∀ s, optAccepts .panesTopLeft s = true) ∧
+    (∀ s, optAccepts .panesActive s = true) ∧ (∀ s, optAccepts .panesSqref s = true) ∧
+    (∀ s, optAccepts .formLinkCheck s = true) ∧ (∀ s, s ≠ [] → optAccepts .ignoredErrors s = true) ∧
+    parseA1 ['j', 'u', 'n', 'k'] = none ∧ parseRangeStrict ['j', 'u', 'n', 'k'] = none := by
+  refine ⟨fun _ => rfl, fun _ => rfl, fun _ => rfl, fun _ => rfl, fun _ => rfl, fun _ => rfl,
+    fun _ => rfl, ?_, by decide +kernel, by decide +kernel⟩
+  intro s hs
+  cases s with
+  | nil => exact absurd rfl hs
+  | cons a as => rfl
+
+/-- `UnsetConditionalFormat` after `SetConditionalFormat` on a plain range: the format
+is found iff the argument is literally the stored reference, i.e. both corners in
+their canonical relative spelling, in the order they were given. -/
+theorem cf_unset_finds_iff (s t : List Char) :
+    cfUnsetFinds s t = some true ↔ cfStoredRef s = some t := by
+  unfold cfUnsetFinds
+  cases h : cfStoredRef s with
+  | none => simp
+  | some stored => simp only [Option.some.injEq, beq_iff_eq]
+
+/-- what is true (`…_partial`: the missing hypothesis is "`t` is the canonical
+spelling"): unsetting by the canonical spelling of the corners always finds it -/
+theorem cf_unset_canonical_partial (a b : List Char) (ca ra cb rb : Int)
+    (ha : cellNameToCoordinates a = .ok (ca, ra)) (hb : cellNameToCoordinates b = .ok (cb, rb)) :
+    ∃ x y, coordinatesToCellName ca ra false = .ok x ∧ coordinatesToCellName cb rb false = .ok y ∧
+      cfUnsetFinds (a ++ ':' :: b) (x ++ [':'] ++ y) = some true := by
+  obtain ⟨_, _, _, _, x, hx, _⟩ := cell_decode_encode a ca ra ha
+  obtain ⟨_, _, _, _, y, hy, _⟩ := cell_decode_encode b cb rb hb
+  obtain ⟨na, ma, hsa, _, _⟩ := shape_of_decode ha
+  obtain ⟨nb, mb, hsb, _, _⟩ := shape_of_decode hb
+  refine ⟨x, y, hx, hy, ?_⟩
+  rw [cf_unset_finds_iff]
+  unfold cfStoredRef setterRef
+  rw [splitColon_two a b (shape_nocolon hsa) (shape_nocolon hsb)]
+  simp only [ha, hb, hx, hy]
+
+/-- **finding (open)**: `UnsetConditionalFormat` compares its argument with the stored
+reference as a string: after `SetConditionalFormat("Sheet1", "a1:b2", …)` (stored as
+`A1:B2`) `UnsetConditionalFormat("Sheet1", "a1:b2")` and `("$A$1:$B$2")` return nil
+and leave the format; only `"A1:B2"` removes it. Oracle signature
+`optref:spelling:unset-conditional-format`. -/
+theorem finding_cf_unset_spelling :
+    cfUnsetFinds ['a', '1', ':', 'b', '2'] ['a', '1', ':', 'b', '2'] = some false ∧
+    cfUnsetFinds ['a', '1', ':', 'b', '2'] ['$', 'A', '$', '1', ':', '$', 'B', '$', '2'] = some false ∧
+    cfUnsetFinds ['a', '1', ':', 'b', '2'] ['A', '1', ':', 'B', '2'] = some true := by
+  refine ⟨by decide +kernel, by decide +kernel, by decide +kernel⟩
 
 end XlModel.Props.C20
